@@ -48,10 +48,29 @@ def search_plan(seed):
 
 def _first_err_pos(obs):
     # ERR (w:file 0 12) ...: the end of the outermost range is the failure offset
+    # (an error is rendered as "(code start end @line:col)")
     try:
-        return int(obs.split(")")[0].split()[-1])
+        return int(obs.split(")")[0].split()[3])
     except (ValueError, IndexError):
         return 0
+
+
+def _err_ends(obs):
+    # the End offsets of the errors of a rendered chain
+    out = []
+    for part in obs.split("(")[1:]:
+        f = part.split()
+        try:
+            out.append(int(f[2]))
+        except (ValueError, IndexError):
+            pass
+    return out
+
+
+def _nonascii_before(raw, end):
+    """number of non-ASCII bytes between the start of the line of byte `end` and `end`"""
+    ls = raw.rfind(b"\n", 0, end) + 1
+    return sum(1 for b in raw[ls:end] if b >= 0x80)
 
 
 def nontrivial(c):
@@ -66,7 +85,12 @@ def nontrivial(c):
 
 def distribution(cases):
     d = {"parsed": 0, "error": 0, "panic": 0, "bytes_total": 0, "max_bytes": 0, "directives_total": 0,
-         "kinds": {}, "innermost_error": {}, "with_addons": 0, "invalid_utf8_inputs": 0, "crlf_inputs": 0}
+         "kinds": {}, "innermost_error": {}, "with_addons": 0, "invalid_utf8_inputs": 0, "crlf_inputs": 0,
+         # rendered positions (Range.Location()): error cases in which some error of the chain ends after a
+         # non-ASCII byte on its own line (byte column != rune column), after a VALID multi-byte character,
+         # on a line > 1, and the largest difference between byte column and rendered column
+         "error_after_nonascii_on_line": 0, "error_after_valid_multibyte_on_line": 0, "error_on_later_line": 0,
+         "max_bytecol_minus_col": 0, "rendered_positions": 0}
     tags = {"(T ": "transaction", "(O ": "open", "(C ": "close", "(A ": "assertion", "(P ": "price", "(I ": "include"}
     for c in cases:
         if c.op != "C07.parse":
@@ -93,6 +117,24 @@ def distribution(cases):
             d["error"] += 1
             k = o.rsplit("(", 1)[-1].split(" ")[0]
             d["innermost_error"][k] = d["innermost_error"].get(k, 0) + 1
+            raw = bytes.fromhex(c.input)
+            ends = set(_err_ends(o))
+            d["rendered_positions"] += o.count("@")
+            if any(_nonascii_before(raw, e) > 0 for e in ends):
+                d["error_after_nonascii_on_line"] += 1
+            multi = 0
+            for e in ends:
+                ls = raw.rfind(b"\n", 0, e) + 1
+                try:
+                    txt = raw[ls:e].decode("utf-8")
+                    multi = max(multi, len(raw[ls:e]) - len(txt))
+                except ValueError:
+                    pass
+            if multi > 0:
+                d["error_after_valid_multibyte_on_line"] += 1
+                d["max_bytecol_minus_col"] = max(d["max_bytecol_minus_col"], multi)
+            if any(b"\n" in raw[:e] for e in ends):
+                d["error_on_later_line"] += 1
         else:
             d["panic"] += 1
     return d
